@@ -108,7 +108,9 @@ def check(tier, seed, t0):
     parts = [("lib", common.run_rgmon("c02", tier, seed)),
              ("cli", common.run_cli_cases("c03", cli_case, seed, "c02cli", total, 25 if tier == "quick" else 100))]
     if tier == "thorough":
+        import sanitize
         parts.append(("memcheck", memcheck_leg(seed)))
+        parts.append(("miri", sanitize.miri_leg("C02", 5)(tier, seed)))
     rep = common.merge_reports(parts)
     return common.finalize("C02", tier, seed, "exploration", RULE, rep, t0, ASSUME,
                            floor_eval=500, floor_distinct=200)
